@@ -54,7 +54,7 @@ impl ScriptLine {
         ScriptLine { raw, newline: true, cls: "garbage", what: None }
     }
     pub fn print(what: PrintWhat, upper: bool) -> ScriptLine {
-        let sp = Spelling { case: if upper { Case::Upper } else { Case::Lower }, radix: Radix::Dec, wide: false };
+        let sp = Spelling { case: if upper { Case::Upper } else { Case::Lower }, radix: Radix::Dec, wide: false, nl: false };
         ScriptLine { raw: what.to_src(&sp), newline: true, cls: "print", what: Some(what) }
     }
     pub fn bytes(&self) -> Vec<u8> {
